@@ -531,6 +531,25 @@ def f0() -> uint64:
     self.s1 *= v2
     return self.s1
 """),
+    ("regress/disable_load_elimination+disable_remove_unused_variables_dead_offset", """
+struct St0:
+    m1: uint256
+    m2: int8
+
+s0: St0
+s1: immutable(int40)
+
+@deploy
+def __init__():
+    self.s1 = 1
+
+@external
+def f0() -> int40:
+    if (self.s1 > self.s1):
+        pass
+    v2: St0 = self.s0
+    return 0
+"""),
     ("regress/default_empty_bucket", """
 event Fell:
     x: uint256
@@ -619,6 +638,11 @@ def part_corpus(ctx, cfgs):
     from vlib.configs import Config, USABLE_FLAGS
     n_base = len(cfgs)
     cfgs = list(cfgs) + [Config(True, "gas", "cancun", flags=[f]) for f in USABLE_FLAGS]
+    # a regression that needs a COMBINATION of flags names all of them: it also runs under exactly that combination
+    for job in usable:
+        named = [f for f in USABLE_FLAGS if f in job["name"]]
+        if job.get("regress") and len(named) >= 2 and not any(sorted(c.flags) == sorted(named) for c in cfgs):
+            cfgs.append(Config(True, "gas", "cancun", flags=named))
     _JOBS = {"jobs": usable, "cfgs": cfgs}
     # quick tier: the (large) example contracts run under four most-different configurations only, the corpus under seven
     # quick tier: every corpus contract runs under the two default pipelines plus three rotating configurations; the example
